@@ -305,6 +305,12 @@ def run_attr(attr, env):
         v = getattr(r, attr)
         if callable(v) and not hasattr(v, "__len__") and attr not in ("stream", "input_stream", "user_agent"):
             return "ok:method"
+    if attr == "max_forwards":
+        return "V:" + opt(str, v)
+    if attr == "content_length":
+        return "V:" + opt(str, v)
+    if attr == "access_control_request_headers":
+        return "V:" + ("~" if v is None else c_list(list(v)))
     pa = ATTR_PARSER.get(attr)
     if pa is not None and pa[0] in env:
         # same observation as the parser case, on the object the attribute returned
@@ -366,9 +372,9 @@ class Hostile(Stream):
             ("options", "a; k*0*=utf-8''%C3; k*1*=%A9"), ("options", "a; k*=x; j*=y"), ("options", "a; k*=foo''b; j*=c"), ("options", 'a; k="%22"'), ("options", "a;k=v;k=w"),
             ("options", "a; k=\xe9"), ("options", 'a; k="\xe9"'), ("options", "a; k*=iso-8859-1''%E9\xe9"), ("options", "a; K=V"), ("options", "a; =v"), ("options", "a; k"),
             ("list", '"'), ("list", '"\\'), ("list", ",,"), ("list", 'a, "b, c", d'), ("dict", "="), ("dict", "a"), ("dict", 'a="'), ("dict", "a*=utf-8''%ff"), ("dict", "a*=UTF-8'x'%C3%A9 z"),
-            ("etags", "*"), ("etags", '""'), ("etags", 'W/"a", "b" , c'), ("etags", ","), ("etags", 'W/'), ("etags", '"a'), ("etags", "a\xa0,\xa0b"), ("unquote_etag", '"'), ("unquote_etag", "w/"),
+            ("etags", "*"), ("etags", '""'), ("etags", 'W/"", ""'), ("etags", 'W/"a", "b" , c'), ("etags", ","), ("etags", 'W/'), ("etags", '"a'), ("etags", "a\xa0,\xa0b"), ("unquote_etag", '"'), ("unquote_etag", "w/"),
             ("range", "bytes=0-"), ("range", "bytes=-"), ("range", "bytes=--1"), ("range", "bytes=1-0"), ("range", "=,"), ("range", "bytes=0-1,-1,2-3"), ("range", "bytes=\xa00-1"),
-            ("range", "bytes=99999999999999999999999999-"), ("range", "bytes=1_0-20"), ("range", "bytes=+1-2"), ("range", "bytes=0-1-2"),
+            ("range", "bytes=99999999999999999999999999-"), ("range", "bytes=1_0-20"), ("range", "bytes=+1-2"), ("range", "bytes=0-1-2"), ("range", "bytes=-0"), ("range", "bytes=0-0,-0"), ("range", "bytes=-00"), ("range", "bytes=--0"),
             ("content_range", "bytes"), ("content_range", "bytes */*"), ("content_range", "bytes 0-0/0"), ("content_range", "bytes -1-5/10"), ("content_range", "b 1--3/5"), ("content_range", "b x/1"),
             ("content_range", "b */-1"), ("age", "-1"), ("age", "1_0"), ("age", " 5 "), ("age", "+5"), ("age", "99999999999999999999"), ("age", "5.0"), ("age", "\xb2"),
             ("authorization", "Basic"), ("authorization", "Basic ===="), ("authorization", "Basic Zg"), ("authorization", "Basic Z"), ("authorization", "Basic /w=="), ("authorization", "Basic dTpw!!"),
@@ -388,7 +394,8 @@ class Hostile(Stream):
             ("accept_mimetypes", "HTTP_ACCEPT", "text/html;*0=x"), ("date", "HTTP_DATE", "1 Jan 99999999999999999999 0:0:0"),
             ("if_modified_since", "HTTP_IF_MODIFIED_SINCE", "1 Jan 2026 99999999999999999999999:0:0"), ("if_range", "HTTP_IF_RANGE", "Thu, 01 Jan 2026 00:00:00 +99999999999999999999"),
             ("content_length", "CONTENT_LENGTH", "-5"), ("content_length", "CONTENT_LENGTH", "\xb2"), ("content_length", "CONTENT_LENGTH", "1_0"), ("max_forwards", "HTTP_MAX_FORWARDS", "x"),
-            ("max_forwards", "HTTP_MAX_FORWARDS", " 1_0 "), ("form", "CONTENT_TYPE", "multipart/form-data"), ("form", "CONTENT_TYPE", "multipart/form-data; boundary=\xe9"),
+            ("max_forwards", "HTTP_MAX_FORWARDS", " 1_0 "), ("max_forwards", "HTTP_MAX_FORWARDS", "-\xa07"), ("content_length", "HTTP_TRANSFER_ENCODING", "chunked"),
+            ("content_length", "HTTP_TRANSFER_ENCODING", "Chunked"), ("content_length", "CONTENT_LENGTH", " 12 "), ("content_length", "CONTENT_LENGTH", "+3"), ("form", "CONTENT_TYPE", "multipart/form-data"), ("form", "CONTENT_TYPE", "multipart/form-data; boundary=\xe9"),
             ("form", "CONTENT_TYPE", 'multipart/form-data; boundary="'), ("files", "CONTENT_TYPE", "multipart/form-data; boundary=a=1&b"), ("json", "CONTENT_TYPE", "application/json"),
             ("data", "CONTENT_TYPE", "application/x-www-form-urlencoded; charset=\xff"), ("form", "CONTENT_LENGTH", "99999999999999999999"), ("get_json", "CONTENT_TYPE", "application/json; charset=x"),
             ("mimetype_params", "CONTENT_TYPE", "a/b; k*=utf-8''%ff; *0=z"), ("user_agent", "HTTP_USER_AGENT", "\xff"), ("access_control_request_headers", "HTTP_ACCESS_CONTROL_REQUEST_HEADERS", 'a, "'),
@@ -411,28 +418,48 @@ class Hostile(Stream):
                     env[rng.choice(CLIENT_VARS)] = hs(hostile(rng))
                 yield {"k": "a", "attr": attr, "env": env}
 
+    #: after this many hangs of one parser / attribute its further cases are not evaluated (they are
+    #: reported as hangs): a non-terminating mutation must not turn the check itself into a hang
+    MAX_HANGS = 2
+
     def real(self, case):
         from werkzeug.exceptions import HTTPException
 
+        hangs = self.__dict__.setdefault("_hangs", {})
+        label = self.label(case)
+        if hangs.get(label, 0) >= self.MAX_HANGS:
+            return "SKIPPED:hang-limit"  # not evaluated; the hangs already recorded are the violations
         try:
             if case["k"] == "p":
                 return timed(lambda: run_parser(case["name"], unhs(case["s"])))
             return timed(lambda: run_attr(case["attr"], case["env"]))
         except HTTPException as e:
             return f"HTTP:{e.code}"
+        except Timeout:
+            hangs[label] = hangs.get(label, 0) + 1
+            raise
 
     def model_line(self, case):
         if case["k"] == "p":
             cmd = PARSER_CMD.get(case["name"])
             return None if cmd is None else line(cmd, case["s"])
+        env = case["env"]
+        if case["attr"] == "max_forwards":
+            return line("attr.maxfwd", env.get("HTTP_MAX_FORWARDS", "~"))
+        if case["attr"] == "content_length":
+            return line("attr.clen", env.get("CONTENT_LENGTH", hs(str(len(BODY)))), env.get("HTTP_TRANSFER_ENCODING", "~"))
+        if case["attr"] == "access_control_request_headers":
+            return line("attr.acrh", env.get("HTTP_ACCESS_CONTROL_REQUEST_HEADERS", "~"))
         pa = ATTR_PARSER.get(case["attr"])
-        if pa is not None and pa[0] in case["env"]:
-            return line(PARSER_CMD[pa[1]], case["env"][pa[0]])
+        if pa is not None and pa[0] in env:
+            return line(PARSER_CMD[pa[1]], env[pa[0]])
         return None
 
     def canon_model(self, case, out):
         if case["k"] == "p":
             name = case["name"]
+        elif case["attr"] in ("max_forwards", "content_length", "access_control_request_headers"):
+            return out if out.startswith("EXC:") else "V:" + out
         else:
             name = ATTR_PARSER[case["attr"]][1]
         if out.startswith("EXC:") or out in ("BAD-ARGS",) or out.startswith("UNKNOWN"):
